@@ -1259,7 +1259,30 @@ def gen_coupling_data(rng, nprng, quick):
             d[:, 0] = 1.5
         if kind == "scaled":
             d = d * 2.0 ** rng.choice([-300, -30, 30, 300])
-    return kind, d.reshape(n, N)
+    d = d.reshape(n, N)
+    # round 5: the caller's array in both float widths, as integers, and in other memory layouts
+    variant = rng.choice(["c-order", "c-order", "float32", "fortran", "strided", "int64", "float32-fortran"])
+    if variant.startswith("float32") and (kind == "scaled" or not np.isfinite(d.astype(np.float32)).all()):
+        variant = "fortran"
+    if variant == "int64" and kind != "int":
+        variant = "strided"
+    if variant.startswith("float32"):
+        d = d.astype(np.float32)
+    if variant == "int64":
+        d = d.astype(np.int64)
+    if variant.endswith("fortran"):
+        d = np.asfortranarray(d)
+    if variant == "strided":
+        big = nprng.randn(2 * n + 1, 3 * N + 2).astype(d.dtype)
+        big[1::2, 2::3][:n, :N] = d
+        d = big[1::2, 2::3][:n, :N]
+    return kind + "/" + variant, d
+
+
+def as_caller_array(d):
+    """the array handed to the constructor: the strided view itself, otherwise a copy that keeps
+    dtype and memory order"""
+    return d if not d.flags.owndata else d.copy(order="K")
 
 
 def coupling_correspondence(ctx, rng, nprng, quick):
@@ -1271,13 +1294,15 @@ def coupling_correspondence(ctx, rng, nprng, quick):
         n, N = d.shape
         seed = rng.randrange(2 ** 31)
         px = CouplingNumpyProxy(seed)
-        rep = {"dataarray(time,nodes)": d.tolist(), "numpy_RandomState_seed": seed}
+        rep = {"dataarray(time,nodes)": d.tolist(), "numpy_RandomState_seed": seed, "dtype": str(d.dtype),
+               "caller_array": kind}
+        ctx.count("coupling-caller:" + kind.split("/")[1])
         calls = [rng.choice(["direct", "direct", "cc", "mi"]) for _ in range(rng.choice([1, 2, 3]))]
         if n < 4:
             calls = ["direct"] * len(calls)      # the statistics of the wrappers need a few samples
         try:
             with quiet(), np.errstate(all="ignore"), patched(CM, numpy=px):
-                ca = CM.CouplingAnalysisPurePython(d.copy(), silence_level=3)
+                ca = CM.CouplingAnalysisPurePython(as_caller_array(d), silence_level=3)
                 for how in calls:
                     before = len(px.fft.ifft_in)
                     try:
@@ -1313,14 +1338,14 @@ def coupling_correspondence(ctx, rng, nprng, quick):
             for W, what in [(cache, "memoised-fft")] + [(a, "ifft-input") for a in f.ifft_in]:
                 sc = float(np.abs(cache).max()) or 1.0
                 mir = np.conj(W[:, (-np.arange(n)) % n])
-                if W.shape != cache.shape or not np.all(np.abs(W - mir) <= TOL * sc) or \
-                        not np.all(np.abs(np.abs(W) - np.abs(cache)) <= TOL * sc):
+                if W.shape != cache.shape or not np.all(np.abs(W - mir) <= tol_for(d) * sc) or \
+                        not np.all(np.abs(np.abs(W) - np.abs(cache)) <= tol_for(d) * sc):
                     herm_bad.append(f"{what} n={n} seed={seed}")
             herm_cnt[0] += 1 + len(f.ifft_in)
             for i in range(N):
                 ph = [px.random.phases[k][i] for k in range(len(calls))]
                 creqs.append(f"cns {enc_vec(cache[i].real)} {enc_vec(cache[i].imag)} {enc_mat(ph)}")
-                cimpl.append(([f.ifft_in[k][i] for k in range(len(calls))], TOL))
+                cimpl.append(([f.ifft_in[k][i] for k in range(len(calls))], tol_for(d)))
         ctx.case(("coupling-fourier", d.tobytes().hex(), seed, tuple(calls)), n >= 4)
         ctx.count("gen:coupling-class-fourier", len(calls))
         for how in calls:
@@ -1466,11 +1491,13 @@ def coupling_oracle(ctx, rng, nprng, quick):
         n, N = d.shape
         seed = rng.randrange(2 ** 31)
         np.random.seed(seed)
-        rep = {"dataarray(time,nodes)": d.tolist(), "numpy_random_seed": seed}
+        rep = {"dataarray(time,nodes)": d.tolist(), "numpy_random_seed": seed, "dtype": str(d.dtype),
+               "caller_array": kind}
         ctx.count("oracle:coupling-fourier")
+        ctx.count("oracle:coupling-caller:" + kind.split("/")[1])
         try:
             with quiet(), np.errstate(all="ignore"):
-                ca = CA(d.copy(), silence_level=3)
+                ca = CA(as_caller_array(d), silence_level=3)
                 data = ca.dataarray.copy()
                 for call in range(rng.choice([1, 2, 4])):
                     out = ca.correlatedNoiseSurrogates(ca.dataarray.copy())
